@@ -81,3 +81,7 @@ open Csproto
 #print axioms Csproto.Bridge.PackedFuncs.DecodePackedUint64_refines
 #print axioms Csproto.Bridge.PackedFuncs.loop_eqI
 #print axioms Csproto.Bridge.PackedFuncs.DecodePackedInt64_refines
+#print axioms Csproto.Bridge.PackedFuncs.loop_eqS
+#print axioms Csproto.Bridge.PackedFuncs.DecodePackedSint64_refines
+#print axioms Csproto.Bridge.PackedFuncs.loop_eqT
+#print axioms Csproto.Bridge.PackedFuncs.DecodePackedSint32_refines
